@@ -54,6 +54,7 @@ type c19Op struct {
 	Fail   string `json:"fail"`   // eth: "" | nonce | gas
 	Sender int    `json:"sender"` // eth: which funded account
 	K2     int    `json:"k2"`     // eth2: logs of the second message
+	Inner  int    `json:"inner"`  // eth: logs emitted by an inner call frame that reverts (failure ignored) before the k logs
 }
 
 type c19OpObs struct {
@@ -69,9 +70,10 @@ type c19BlockObs struct {
 	NLogs   int        `json:"nlogs"`
 }
 
-// runtime: n := calldata[0]; n times LOG1(topic=counter); if calldata[32] != 0 REVERT
-var c19Runtime = mustHex("6000355b80156016578060006000a1600190036003565b5060203560" + "1f57005b60006000fd")
-var c19Init = append(mustHex("6025600c60003960256000f3"), c19Runtime...)
+// runtime: m := calldata[64]; if m != 0 { CALL self with (m, 1, 0) — an inner frame that emits m logs and
+// reverts; the failure is ignored }; n := calldata[0]; n times LOG1(topic=counter); if calldata[32] != 0 REVERT
+var c19Runtime = mustHex("6040358015602457806000526001602052600060405260006000606060006000305af1505b506000355b8015603c578060006000a1600190036029565b50602035604557005b60006000fd")
+var c19Init = append(mustHex("604b600c600039604b6000f3"), c19Runtime...)
 
 func mustHex(s string) []byte {
 	b, err := hex.DecodeString(s)
@@ -229,10 +231,14 @@ func (w *c19World) runBlock(ops []c19Op) c19BlockObs {
 			case "gas":
 				gas = 20_000
 			}
-			data := make([]byte, 64)
+			data := make([]byte, 96)
 			data[31] = byte(op.K)
 			if op.Revert {
 				data[63] = 1
+			}
+			data[95] = byte(op.Inner)
+			if op.Inner > 0 && op.Fail != "gas" {
+				gas += 100_000
 			}
 			to := w.emitter
 			msg, err := c.SignEth(w.accs[s], &evm.EvmTxArgs{Nonce: nonce, GasLimit: gas, GasPrice: price, To: &to, Input: data})
@@ -337,6 +343,9 @@ func genC19Case(r *Rng, canConvert bool) [][]c19Op {
 				ops = append(ops, c19Op{Kind: "conv20", Sender: r.Intn(3)})
 			case 0:
 				op := c19Op{Kind: "eth", K: r.Pick(2, 3, 2, 1, 1), Sender: r.Intn(3)}
+				if r.Chance(1, 4) {
+					op.Inner = r.Range(1, 3)
+				}
 				switch r.Pick(6, 2, 1, 1) {
 				case 1:
 					op.Revert = true
@@ -387,6 +396,7 @@ func TestC19(t *testing.T) {
 	run([][]c19Op{{{Kind: "eth", K: 1}, {Kind: "create"}, {Kind: "convert"}, {Kind: "eth", K: 2}}})
 	run([][]c19Op{{{Kind: "eth", K: 2}, {Kind: "eth", K: 0}, {Kind: "convert"}, {Kind: "convert"}, {Kind: "eth", K: 1, Revert: true}, {Kind: "eth", K: 3}}})
 	run([][]c19Op{{{Kind: "s2b", K: 1}, {Kind: "eth", K: 1}, {Kind: "conv20"}, {Kind: "s2b", K: 2}, {Kind: "conv20"}, {Kind: "eth", K: 2}}})
+	run([][]c19Op{{{Kind: "eth", K: 1, Inner: 2}, {Kind: "eth", K: 2}, {Kind: "convert"}, {Kind: "eth", K: 2, Inner: 1, Revert: true}, {Kind: "eth", K: 1}}})
 	run([][]c19Op{{{Kind: "eth2", K: 1, K2: 2}, {Kind: "convert"}, {Kind: "eth2", K: 2, K2: 1, Revert: true}, {Kind: "eth", K: 1}, {Kind: "eth2", K: 1, K2: 1, Fail: "gas"}, {Kind: "eth", K: 1}}})
 	rng := NewRng(cfg.Seed)
 	for i := 0; i < cfg.N; i++ {
